@@ -992,7 +992,7 @@ func cmdC02(seed int64, tier, outDir string) {
 	}
 	n *= optBoost
 	id := 0
-	for _, p := range append(c02Corpus(), c02SwitchFamily()...) {
+	for _, p := range append(append(c02Corpus(), c02SwitchFamily()...), pgStrCorpus()...) {
 		id++
 		run.runCase(p, id)
 	}
